@@ -21,7 +21,15 @@ def main(argv):
         return 2
     if argv[0] == "--replay":
         quiet = "--quiet" in argv
+        if "--log" in argv:
+            os.environ["VERIF_KEEP_LOG"] = "1"
         pid, hit, same, r = runner.replay_file(argv[1], quiet=quiet)
+        if "--log" in argv:
+            skip = ("setsockopt", "recv_call", "urandom") if "--all" not in argv else ()
+            for e in r.info.get("log", []):
+                if e[3] in skip:
+                    continue
+                print("   ", e[0], round(e[1] / 65536, 4), "T%d" % e[2], *[(x if not isinstance(x, (bytes, bytearray)) else x[:24]) for x in e[3:]])
         if hit:
             print(f"REPRODUCED property={pid} digest={'same' if same else 'DIFFERENT'}")
             print(f"VIOLATION property={pid} replay={argv[1]}")
